@@ -5,9 +5,9 @@ pub mod own {
     use crate::{guarded, pi64, pu64, pusize, Case, Tok, RELEASED};
     use std::collections::HashMap as StdMap;
 
-    type ON = Node<u64, Tok, u64>;
-    type OE = Edge<u64, Tok, u64>;
-    type OG = Graph<u64, Tok, u64>;
+    type ON = Node<Kt, Tok, Et>;
+    type OE = Edge<Kt, Tok, Et>;
+    type OG = Graph<Kt, Tok, Et>;
 
     enum Obj {
         Node(ON),
@@ -48,7 +48,7 @@ pub mod own {
                 let slots = slots_ref;
                 match st[0].as_str() {
                     "onew" => {
-                        let n = Node::new(pu64(&st[2]), Tok::new(pi64(&st[3])));
+                        let n = Node::new(Kt::of(pu64(&st[2])), Tok::new(pi64(&st[3])));
                         slots.insert(pusize(&st[1]), Obj::Node(n));
                         "ok".to_string()
                     }
@@ -58,7 +58,7 @@ pub mod own {
                         "ok".to_string()
                     }
                     "ocon" => {
-                        node_of(slots, &st[1]).connect(&node_of(slots, &st[2]), pu64(&st[3]));
+                        node_of(slots, &st[1]).connect(&node_of(slots, &st[2]), Et::of(pu64(&st[3])));
                         "ok".to_string()
                     }
                     "oqry" => {
@@ -68,11 +68,11 @@ pub mod own {
                         let c2 = b.is_connected(a.key());
                         format!("q {} {}", c1 as u8, c2 as u8)
                     }
-                    "otry" => match node_of(slots, &st[1]).try_connect(&node_of(slots, &st[2]), pu64(&st[3])) {
+                    "otry" => match node_of(slots, &st[1]).try_connect(&node_of(slots, &st[2]), Et::of(pu64(&st[3]))) {
                         Ok(()) => "ok".to_string(),
                         Err(_) => "err exists".to_string(),
                     },
-                    "odis" => match node_of(slots, &st[1]).disconnect(&pu64(&st[2])) {
+                    "odis" => match node_of(slots, &st[1]).disconnect(&Kt::of(pu64(&st[2]))) {
                         Ok(e) => format!("ok {}", e),
                         Err(_) => "err notfound".to_string(),
                     },
@@ -98,7 +98,7 @@ pub mod own {
                     }
                     "opath" => {
                         let a = node_of(slots, &st[2]);
-                        let k = pu64(&st[3]);
+                        let k = Kt::of(pu64(&st[3]));
                         macro_rules! keep {
                             ($p:expr) => {
                                 match $p {
@@ -126,7 +126,7 @@ pub mod own {
                     }
                     "ofind" => {
                         let a = node_of(slots, &st[2]);
-                        let k = pu64(&st[3]);
+                        let k = Kt::of(pu64(&st[3]));
                         let r = match st[4].as_str() {
                             "bfs" => a.bfs().target(&k).search(),
                             "dfs" => a.dfs().target(&k).search(),
@@ -161,7 +161,7 @@ pub mod own {
                     }
                     "ogget" => {
                         let r = match slots.get(&pusize(&st[2])) {
-                            Some(Obj::Graph(g)) => g.get(&pu64(&st[3])),
+                            Some(Obj::Graph(g)) => g.get(&Kt::of(pu64(&st[3]))),
                             _ => panic!("verif: not a graph"),
                         };
                         match r {
@@ -175,7 +175,7 @@ pub mod own {
                     }
                     "ogrem" => {
                         let r = match slots.get_mut(&pusize(&st[2])) {
-                            Some(Obj::Graph(g)) => g.remove(&pu64(&st[3])),
+                            Some(Obj::Graph(g)) => g.remove(&Kt::of(pu64(&st[3]))),
                             _ => panic!("verif: not a graph"),
                         };
                         match r {
@@ -204,7 +204,7 @@ pub mod own {
                             format!("nodes {}", v.iter().map(|n| format!("{}:{}", n.key(), n.value().id)).collect::<Vec<_>>().join(" "))
                         }
                         Some(Obj::Graph(g)) => {
-                            let mut ms: Vec<(u64, i64)> = g.to_vec().iter().map(|n| (*n.key(), n.value().id)).collect();
+                            let mut ms: Vec<(u64, i64)> = g.to_vec().iter().map(|n| (n.key().n(), n.value().id)).collect();
                             ms.sort();
                             format!("graph {}{}", g.len(), ms.iter().map(|(k, v)| format!(" {}:{}", k, v)).collect::<String>())
                         }
